@@ -69,4 +69,642 @@ theorem denote_mono (nodes : Array Node) (inputs : Array Nat) :
           | panic => simp [hd] at h
         · simp [ha] at h
 
+/-! ## one step of the single pass is the reference interpretation -/
+
+theorem getElem?_lt_of_some {α : Type} (a : Array α) (i : Nat) (x : α) (h : a[i]? = some x) : i < a.size := by
+  rcases Nat.lt_or_ge i a.size with h' | h'
+  · exact h'
+  · rw [Array.getElem?_eq_none h'] at h; cases h
+
+theorem getElem!_of_some (a : Array Nat) (i : Nat) (x : Nat) (h : a[i]? = some x) : a[i]! = x := by
+  simp [Array.getElem!_eq_getD, Array.getD_eq_getD_getElem?, h]
+
+theorem denote_of_values (nodes : Array Node) (inputs values : Array Nat) (k a x : Nat)
+    (hsz : values.size = k)
+    (hinv : ∀ i, i < k → denote nodes inputs (i + 1) i = .ok values[i]!)
+    (h : values[a]? = some x) : a < k ∧ denote nodes inputs k a = .ok x := by
+  have hlt : a < k := hsz ▸ getElem?_lt_of_some _ _ _ h
+  refine ⟨hlt, ?_⟩
+  have := hinv a hlt
+  rw [getElem!_of_some _ _ _ h] at this
+  exact denote_mono nodes inputs (a + 1) k a x this (by omega)
+
+theorem evalNode_denote (nodes : Array Node) (inputs values : Array Nat) (k : Nat) (n : Node) (v : Nat)
+    (hsz : values.size = k) (hn : nodes[k]? = some n)
+    (hinv : ∀ i, i < k → denote nodes inputs (i + 1) i = .ok values[i]!)
+    (h : evalNode values inputs n = .ok v) : denote nodes inputs (k + 1) k = .ok v := by
+  unfold denote
+  simp only [hn]
+  cases n with
+  | input i => exact h
+  | constant c => exact h
+  | montConstant c => exact h
+  | uno op a =>
+    simp only [evalNode] at h ⊢
+    cases ha : values[a]? with
+    | none => simp [ha] at h
+    | some x =>
+      obtain ⟨hlt, hd⟩ := denote_of_values nodes inputs values k a x hsz hinv ha
+      simp only [ha] at h
+      simp only [hlt, if_true, hd]; exact h
+  | duo op a b =>
+    simp only [evalNode] at h ⊢
+    cases ha : values[a]? with
+    | none => simp [ha] at h
+    | some x =>
+      cases hb : values[b]? with
+      | none => simp [ha, hb] at h
+      | some y =>
+        obtain ⟨hlt, hd⟩ := denote_of_values nodes inputs values k a x hsz hinv ha
+        obtain ⟨hlt', hd'⟩ := denote_of_values nodes inputs values k b y hsz hinv hb
+        simp only [ha, hb] at h
+        simp only [hlt, hlt', and_self, if_true, hd, hd']; exact h
+  | tres op a b c =>
+    simp only [evalNode] at h ⊢
+    cases ha : values[a]? with
+    | none => simp [ha] at h
+    | some x =>
+      cases hb : values[b]? with
+      | none => simp [ha, hb] at h
+      | some y =>
+        cases hc : values[c]? with
+        | none => simp [ha, hb, hc] at h
+        | some z =>
+          obtain ⟨hlt, hd⟩ := denote_of_values nodes inputs values k a x hsz hinv ha
+          obtain ⟨hlt', hd'⟩ := denote_of_values nodes inputs values k b y hsz hinv hb
+          obtain ⟨hlt'', hd''⟩ := denote_of_values nodes inputs values k c z hsz hinv hc
+          simp only [ha, hb, hc] at h
+          simp only [hlt, hlt', hlt'', and_self, if_true, hd, hd', hd'']; exact h
+
+theorem getElem!_push_lt (a : Array Nat) (v i : Nat) (h : i < a.size) : (a.push v)[i]! = a[i]! := by
+  simp [Array.getElem!_eq_getD, Array.getD_eq_getD_getElem?, Array.getElem?_push, Nat.ne_of_lt h]
+
+theorem getElem!_push_eq (a : Array Nat) (v : Nat) : (a.push v)[a.size]! = v := by
+  simp
+
+theorem evalAll_inv (nodes : List Node) (inputs : Array Nat) :
+    ∀ (rest pre : List Node) (values0 values : Array Nat), pre ++ rest = nodes →
+      values0.size = pre.length →
+      (∀ i, i < pre.length → denote nodes.toArray inputs (i + 1) i = .ok values0[i]!) →
+      evalAll inputs rest values0 = .ok values →
+      values.size = nodes.length ∧
+      ∀ i, i < nodes.length → denote nodes.toArray inputs (i + 1) i = .ok values[i]! := by
+  intro rest
+  induction rest with
+  | nil =>
+    intro pre values0 values hpre hsz hinv h
+    simp only [evalAll] at h
+    cases h
+    simp only [List.append_nil] at hpre
+    subst hpre
+    exact ⟨hsz, hinv⟩
+  | cons n rest ih =>
+    intro pre values0 values hpre hsz hinv h
+    simp only [evalAll] at h
+    cases hv : evalNode values0 inputs n with
+    | err => simp [hv] at h
+    | panic => simp [hv] at h
+    | ok v =>
+      simp only [hv] at h
+      have hn : nodes.toArray[pre.length]? = some n := by
+        subst hpre; simp
+      have hstep := evalNode_denote nodes.toArray inputs values0 pre.length n v hsz hn hinv hv
+      refine ih (pre ++ [n]) (values0.push v) values (by simpa using hpre) (by simp [hsz]) ?_ h
+      intro i hi
+      simp only [List.length_append, List.length_singleton] at hi
+      rcases Nat.lt_or_ge i pre.length with h' | h'
+      · rw [getElem!_push_lt _ _ _ (hsz ▸ h')]; exact hinv i h'
+      · have : i = pre.length := by omega
+        subst this
+        rw [← hsz, getElem!_push_eq]; rw [hsz]; exact hstep
+
+/-! ## a well-formed graph never crashes -/
+
+theorem getElem?_of_lt (a : Array Nat) (i : Nat) (h : i < a.size) : a[i]? = some a[i]! := by
+  simp [h]
+
+theorem evalNode_total (inputs values : Array Nat) (n : Node)
+    (hin : ∀ i, i < inputs.size → inputs[i]! < P)
+    (hv : ∀ i, i < values.size → values[i]! < P)
+    (hok : nodeOk inputs.size values.size n = true) :
+    ∃ v, evalNode values inputs n = .ok v ∧ v < P := by
+  cases n with
+  | input k =>
+    simp only [nodeOk, decide_eq_true_eq] at hok
+    refine ⟨inputs[k]!, ?_, hin k hok⟩
+    simp only [evalNode, getElem?_of_lt _ _ hok, hin k hok, if_true]
+  | constant c =>
+    simp only [nodeOk, decide_eq_true_eq] at hok
+    exact ⟨c, by simp only [evalNode, hok, if_true], hok⟩
+  | montConstant c =>
+    simp only [nodeOk, decide_eq_true_eq] at hok
+    exact ⟨c, rfl, hok⟩
+  | uno op a =>
+    simp only [nodeOk, Bool.and_eq_true, decide_eq_true_eq] at hok
+    obtain ⟨ha, rfl⟩ := hok
+    have := evalFrUno_sem values[a]! (hv a ha)
+    refine ⟨_, ?_, this.2⟩
+    simp only [evalNode, getElem?_of_lt _ _ ha]; exact this.1
+  | duo op a b =>
+    simp only [nodeOk, Bool.and_eq_true, decide_eq_true_eq] at hok
+    obtain ⟨⟨ha, hb⟩, hop⟩ := hok
+    obtain ⟨v, h1, h2⟩ := evalFr_no_panic op values[a]! values[b]! (hv a ha) (hv b hb) hop
+    refine ⟨v, ?_, h2⟩
+    simp only [evalNode, getElem?_of_lt _ _ ha, getElem?_of_lt _ _ hb]; exact h1
+  | tres op a b c =>
+    simp only [nodeOk, Bool.and_eq_true, decide_eq_true_eq] at hok
+    obtain ⟨⟨ha, hb⟩, hc⟩ := hok
+    refine ⟨if values[a]! = 0 then values[c]! else values[b]!, ?_, ?_⟩
+    · simp only [evalNode, getElem?_of_lt _ _ ha, getElem?_of_lt _ _ hb, getElem?_of_lt _ _ hc, evalFrTres]
+    · split
+      · exact hv c hc
+      · exact hv b hb
+
+theorem evalAll_total (inputs : Array Nat) (hin : ∀ i, i < inputs.size → inputs[i]! < P) :
+    ∀ (rest : List Node) (values0 : Array Nat), wfAux inputs.size rest values0.size = true →
+      (∀ i, i < values0.size → values0[i]! < P) →
+      ∃ values, evalAll inputs rest values0 = .ok values ∧ values.size = values0.size + rest.length ∧
+        ∀ i, i < values.size → values[i]! < P := by
+  intro rest
+  induction rest with
+  | nil => intro values0 _ hv; exact ⟨values0, rfl, rfl, hv⟩
+  | cons n rest ih =>
+    intro values0 hwf hv
+    simp only [wfAux, Bool.and_eq_true] at hwf
+    obtain ⟨v, h1, h2⟩ := evalNode_total inputs values0 n hin hv hwf.1
+    have hv' : ∀ i, i < (values0.push v).size → (values0.push v)[i]! < P := by
+      intro i hi
+      simp only [Array.size_push] at hi
+      rcases Nat.lt_or_ge i values0.size with h' | h'
+      · rw [getElem!_push_lt _ _ _ h']; exact hv i h'
+      · have : i = values0.size := by omega
+        subst this
+        rw [getElem!_push_eq]; exact h2
+    obtain ⟨values, e1, e2, e3⟩ := ih (values0.push v) (by simpa using hwf.2) hv'
+    refine ⟨values, ?_, ?_, e3⟩
+    · simp only [evalAll, h1]; exact e1
+    · simp only [Array.size_push] at e2; simp only [List.length_cons]; omega
+
+/-! ## input placement -/
+
+theorem get!_set (buf : Array Nat) (off v p : Nat) :
+    (buf.setIfInBounds off v)[p]! = if p = off ∧ off < buf.size then v else buf[p]! := by
+  simp only [Array.getElem!_eq_getD, Array.getD_eq_getD_getElem?, Array.getElem?_setIfInBounds]
+  by_cases h : off = p
+  · subst h
+    by_cases h' : off < buf.size
+    · simp [h']
+    · simp [h']
+  · have : ¬ p = off := fun e => h e.symm
+    simp [h, this]
+
+theorem ext_of_get (a b : Array Nat) (hs : a.size = b.size) (h : ∀ p : Nat, a[p]! = b[p]!) : a = b := by
+  apply Array.ext hs
+  intro i h1 h2
+  have := h i
+  simpa [Array.getElem!_eq_getD, Array.getD_eq_getD_getElem?, h1, h2] using this
+
+theorem list_get!_cons_succ (v : Nat) (r : List Nat) (i : Nat) : (v :: r)[i + 1]! = r[i]! := by
+  simp
+
+theorem writeAt_spec : ∀ (vals : List Nat) (buf : Array Nat) (off : Nat), off + vals.length ≤ buf.size →
+    ∃ b, writeAt buf off vals = some b ∧ b.size = buf.size ∧
+      ∀ p, b[p]! = if off ≤ p ∧ p < off + vals.length then vals[p - off]! else buf[p]! := by
+  intro vals
+  induction vals with
+  | nil =>
+    intro buf off _
+    refine ⟨buf, rfl, rfl, ?_⟩
+    intro p
+    have : ¬ (off ≤ p ∧ p < off + ([] : List Nat).length) := by simp only [List.length_nil]; omega
+    simp only [this, if_false]
+  | cons v r ih =>
+    intro buf off h
+    simp only [List.length_cons] at h
+    have hlt : off < buf.size := by omega
+    obtain ⟨b, e1, e2, e3⟩ := ih (buf.setIfInBounds off v) (off + 1) (by simp only [Array.size_setIfInBounds]; omega)
+    refine ⟨b, ?_, by simpa using e2, ?_⟩
+    · simp only [writeAt, hlt, if_true]; exact e1
+    · intro p
+      rw [e3 p, get!_set]
+      simp only [List.length_cons]
+      by_cases hp : p = off
+      · subst hp
+        have h1 : ¬ (p + 1 ≤ p ∧ p < p + 1 + r.length) := by omega
+        have h2 : p ≤ p ∧ p < p + (r.length + 1) := by omega
+        simp only [h1, if_false, h2, if_true, hlt, and_self, Nat.sub_self]
+        simp
+      · by_cases hr : off + 1 ≤ p ∧ p < off + 1 + r.length
+        · have h2 : off ≤ p ∧ p < off + (r.length + 1) := by omega
+          simp only [hr, and_self, if_true, h2]
+          have : p - off = (p - (off + 1)) + 1 := by omega
+          rw [this, list_get!_cons_succ]
+        · have h2 : ¬ (off ≤ p ∧ p < off + (r.length + 1)) := by omega
+          simp only [hr, if_false, h2, hp, false_and]
+
+theorem lookup_mem {β : Type} : ∀ (info : List (String × β)) (name : String) (v : β),
+    info.lookup name = some v → (name, v) ∈ info := by
+  intro info
+  induction info with
+  | nil => intro name v h; simp at h
+  | cons e r ih =>
+    intro name v h
+    obtain ⟨k, w⟩ := e
+    simp only [List.lookup] at h
+    by_cases hk : name = k
+    · subst hk; simp only [beq_self_eq_true] at h; cases h; exact List.mem_cons_self
+    · have : (name == k) = false := by simpa using hk
+      simp only [this] at h
+      exact List.mem_cons_of_mem _ (ih name v h)
+
+theorem pairwise_sym {α : Type} (R : α → α → Prop) (hR : ∀ a b, R a b → R b a) :
+    ∀ (l : List α), l.Pairwise R → ∀ a ∈ l, ∀ b ∈ l, a ≠ b → R a b := by
+  intro l
+  induction l with
+  | nil => intro _ a ha; cases ha
+  | cons x r ih =>
+    intro hp a ha b hb hne
+    rw [List.pairwise_cons] at hp
+    rcases List.mem_cons.mp ha with rfl | ha'
+    · rcases List.mem_cons.mp hb with rfl | hb'
+      · exact absurd rfl hne
+      · exact hp.1 b hb'
+    · rcases List.mem_cons.mp hb with rfl | hb'
+      · exact hR _ _ (hp.1 a ha')
+      · exact ih hp.2 a ha' b hb' hne
+
+theorem layout_bounds (info : List (String × Nat × Nat)) (size : Nat) (h : LayoutOk info size)
+    (name : String) (off len : Nat) (hl : info.lookup name = some (off, len)) :
+    1 ≤ off ∧ off + len ≤ size :=
+  h.2.1 _ (lookup_mem info name (off, len) hl)
+
+theorem layout_disj (info : List (String × Nat × Nat)) (size : Nat) (h : LayoutOk info size)
+    (n1 n2 : String) (o1 l1 o2 l2 : Nat) (hne : n1 ≠ n2)
+    (h1 : info.lookup n1 = some (o1, l1)) (h2 : info.lookup n2 = some (o2, l2)) :
+    o1 + l1 ≤ o2 ∨ o2 + l2 ≤ o1 := by
+  have := pairwise_sym (fun (e f : String × Nat × Nat) => e.2.1 + e.2.2 ≤ f.2.1 ∨ f.2.1 + f.2.2 ≤ e.2.1)
+    (fun a b hab => hab.symm) info h.2.2 _ (lookup_mem info n1 _ h1) _ (lookup_mem info n2 _ h2)
+    (by intro e; apply hne; exact congrArg Prod.fst e)
+  exact this
+
+theorem fit_cons (info : List (String × Nat × Nat)) (name : String) (vals : List Nat) (rest : List (String × List Nat))
+    (h : InputsFit info ((name, vals) :: rest)) :
+    InputsFit info rest ∧ (∃ off, info.lookup name = some (off, vals.length)) ∧ ∀ e' ∈ rest, e'.1 ≠ name := by
+  obtain ⟨hn, hf⟩ := h
+  simp only [List.map_cons, List.nodup_cons] at hn
+  refine ⟨⟨hn.2, fun e' he' => hf e' (List.mem_cons_of_mem _ he')⟩, ?_, ?_⟩
+  · obtain ⟨off, len, h1, h2⟩ := hf (name, vals) List.mem_cons_self
+    exact ⟨off, h2 ▸ h1⟩
+  · intro e' he' heq
+    apply hn.1
+    rw [← heq]
+    exact List.mem_map_of_mem he'
+
+theorem fit_perm (info : List (String × Nat × Nat)) (l1 l2 : List (String × List Nat)) (hp : l1.Perm l2)
+    (h : InputsFit info l2) : InputsFit info l1 :=
+  ⟨(hp.map (·.1)).nodup_iff.mpr h.1, fun e he => h.2 e (hp.mem_iff.mp he)⟩
+
+theorem populate_cons (info : List (String × Nat × Nat)) (name : String) (vals : List Nat)
+    (rest : List (String × List Nat)) (buf : Array Nat) (off : Nat)
+    (hlay : LayoutOk info buf.size) (hl : info.lookup name = some (off, vals.length)) :
+    ∃ b, populateInputs info ((name, vals) :: rest) buf = populateInputs info rest b ∧ b.size = buf.size ∧
+      ∀ p, b[p]! = if off ≤ p ∧ p < off + vals.length then vals[p - off]! else buf[p]! := by
+  obtain ⟨b, e1, e2, e3⟩ := writeAt_spec vals buf off (layout_bounds info _ hlay name off _ hl).2
+  refine ⟨b, ?_, e2, e3⟩
+  simp only [populateInputs, hl, ne_eq, not_true_eq_false, if_false, e1]
+
+theorem populate_ok (info : List (String × Nat × Nat)) :
+    ∀ (ins : List (String × List Nat)) (buf : Array Nat), LayoutOk info buf.size → InputsFit info ins →
+      ∃ b, populateInputs info ins buf = .ok b ∧ b.size = buf.size := by
+  intro ins
+  induction ins with
+  | nil => intro buf _ _; exact ⟨buf, rfl, rfl⟩
+  | cons e rest ih =>
+    intro buf hlay hfit
+    obtain ⟨name, vals⟩ := e
+    obtain ⟨hfit', ⟨off, hl⟩, _⟩ := fit_cons info _ _ _ hfit
+    obtain ⟨b, e1, e2, _⟩ := populate_cons info name vals rest buf off hlay hl
+    obtain ⟨b', f1, f2⟩ := ih b (e2 ▸ hlay) hfit'
+    exact ⟨b', e1 ▸ f1, f2.trans e2⟩
+
+theorem populate_perm_aux (info : List (String × Nat × Nat)) :
+    ∀ (ins' ins : List (String × List Nat)), ins'.Perm ins → ∀ (buf : Array Nat),
+      LayoutOk info buf.size → InputsFit info ins →
+      populateInputs info ins' buf = populateInputs info ins buf := by
+  intro ins' ins hp
+  induction hp with
+  | nil => intro buf _ _; rfl
+  | cons x _ ih =>
+    intro buf hlay hfit
+    obtain ⟨name, vals⟩ := x
+    obtain ⟨hfit', ⟨off, hl⟩, _⟩ := fit_cons info _ _ _ hfit
+    obtain ⟨b, e1, e2, _⟩ := populate_cons info name vals _ buf off hlay hl
+    obtain ⟨b', e1', e2', e3'⟩ := populate_cons info name vals ‹_› buf off hlay hl
+    rw [e1, e1']
+    have : b = b' := ext_of_get _ _ (e2.trans e2'.symm) (fun p => by rw [‹∀ p, b[p]! = _› p, e3' p])
+    subst this
+    exact ih b (e2 ▸ hlay) hfit'
+  | swap x y l =>
+    intro buf hlay hfit
+    obtain ⟨nx, vx⟩ := x
+    obtain ⟨ny, vy⟩ := y
+    obtain ⟨hfit1, ⟨ox, hlx⟩, hne⟩ := fit_cons info _ _ _ hfit
+    obtain ⟨hfit2, ⟨oy, hly⟩, _⟩ := fit_cons info _ _ _ hfit1
+    have hxy : ny ≠ nx := hne (ny, vy) List.mem_cons_self
+    have hdis := layout_disj info _ hlay ny nx oy vy.length ox vx.length hxy hly hlx
+    -- left: y then x
+    obtain ⟨b1, e1, s1, g1⟩ := populate_cons info ny vy ((nx, vx) :: l) buf oy hlay hly
+    obtain ⟨b2, e2, s2, g2⟩ := populate_cons info nx vx l b1 ox (s1 ▸ hlay) hlx
+    -- right: x then y
+    obtain ⟨c1, f1, t1, k1⟩ := populate_cons info nx vx ((ny, vy) :: l) buf ox hlay hlx
+    obtain ⟨c2, f2, t2, k2⟩ := populate_cons info ny vy l c1 oy (t1 ▸ hlay) hly
+    rw [e1, e2, f1, f2]
+    have : b2 = c2 := by
+      apply ext_of_get _ _ (by omega)
+      intro p
+      rw [g2 p, g1 p, k2 p, k1 p]
+      by_cases hx : ox ≤ p ∧ p < ox + vx.length
+      · have hy : ¬ (oy ≤ p ∧ p < oy + vy.length) := by omega
+        simp only [hx, hy, and_self, if_true, if_false]
+      · simp only [hx, if_false]
+    rw [this]
+  | trans h1 _ ih1 ih2 =>
+    intro buf hlay hfit
+    rw [ih1 buf hlay (fit_perm info _ _ ‹_› hfit), ih2 buf hlay hfit]
+
+theorem populate_frame (info : List (String × Nat × Nat)) :
+    ∀ (ins : List (String × List Nat)) (buf b : Array Nat), LayoutOk info buf.size → InputsFit info ins →
+      populateInputs info ins buf = .ok b →
+      ∀ p, (∀ e ∈ ins, ∀ off len, info.lookup e.1 = some (off, len) → p < off ∨ off + len ≤ p) →
+        b[p]! = buf[p]! := by
+  intro ins
+  induction ins with
+  | nil => intro buf b _ _ h p _; simp only [populateInputs] at h; cases h; rfl
+  | cons e rest ih =>
+    intro buf b hlay hfit h p hp
+    obtain ⟨name, vals⟩ := e
+    obtain ⟨hfit', ⟨off, hl⟩, _⟩ := fit_cons info _ _ _ hfit
+    obtain ⟨b1, e1, e2, e3⟩ := populate_cons info name vals rest buf off hlay hl
+    rw [e1] at h
+    rw [ih b1 b (e2 ▸ hlay) hfit' h p (fun e he => hp e (List.mem_cons_of_mem _ he)), e3 p]
+    have := hp (name, vals) List.mem_cons_self off vals.length hl
+    have hx : ¬ (off ≤ p ∧ p < off + vals.length) := by omega
+    simp only [hx, if_false]
+
+theorem populate_place (info : List (String × Nat × Nat)) :
+    ∀ (ins : List (String × List Nat)) (buf b : Array Nat), LayoutOk info buf.size → InputsFit info ins →
+      populateInputs info ins buf = .ok b →
+      ∀ e ∈ ins, ∀ off len, info.lookup e.1 = some (off, len) → ∀ j, j < len → b[off + j]! = e.2[j]! := by
+  intro ins
+  induction ins with
+  | nil => intro buf b _ _ _ e he; cases he
+  | cons e0 rest ih =>
+    intro buf b hlay hfit h e he off len hl j hj
+    obtain ⟨name, vals⟩ := e0
+    obtain ⟨hfit', ⟨off0, hl0⟩, hne⟩ := fit_cons info _ _ _ hfit
+    obtain ⟨b1, e1, e2, e3⟩ := populate_cons info name vals rest buf off0 hlay hl0
+    rw [e1] at h
+    rcases List.mem_cons.mp he with rfl | he'
+    · simp only at hl
+      rw [hl0] at hl
+      cases hl
+      rw [populate_frame info rest b1 b (e2 ▸ hlay) hfit' h (off + j) ?_, e3]
+      · have hx : off ≤ off + j ∧ off + j < off + vals.length := by omega
+        simp only [hx, and_self, if_true, Nat.add_sub_cancel_left]
+      · intro e' he' off' len' hl'
+        have := layout_disj info _ hlay e'.1 name off' len' off vals.length (hne e' he') hl' hl0
+        omega
+    · exact ih b1 b (e2 ▸ hlay) hfit' h e he' off len hl j hj
+
+/-! ## container framing -/
+
+theorem toUInt8_toNat_lt (n : Nat) (h : n < 256) : n.toUInt8.toNat = n := by
+  have := Zk.toUInt8_toNat_mod n
+  rwa [Nat.mod_eq_of_lt h] at this
+
+theorem varint_spec : ∀ (f n : Nat) (rest : List UInt8), n < 128 ^ (f + 1) →
+    (varint (f + 1) n).length ≤ f + 1 ∧ 0 < (varint (f + 1) n).length ∧
+    decVarint (f + 1) (varint (f + 1) n ++ rest) = some (n, (varint (f + 1) n).length) := by
+  intro f
+  induction f with
+  | zero =>
+    intro n rest h
+    have h' : n < 128 := by simpa using h
+    simp only [varint, h', if_true, List.length_singleton, List.singleton_append, decVarint,
+      toUInt8_toNat_lt n (by omega)]
+    simp
+  | succ f ih =>
+    intro n rest h
+    by_cases h' : n < 128
+    · simp only [varint, h', if_true, List.length_singleton, List.singleton_append, decVarint,
+        toUInt8_toNat_lt n (by omega)]
+      simp
+    · have hdiv : n / 128 < 128 ^ (f + 1) := by
+        rw [Nat.div_lt_iff_lt_mul (by omega)]
+        rw [Nat.pow_succ] at h; exact h
+      obtain ⟨i1, i2, i3⟩ := ih (n / 128) rest hdiv
+      have hb : (n % 128 + 128).toUInt8.toNat = n % 128 + 128 := toUInt8_toNat_lt _ (by omega)
+      have hnb : ¬ (n % 128 + 128 < 128) := by omega
+      rw [show varint (f + 1 + 1) n = (n % 128 + 128).toUInt8 :: varint (f + 1) (n / 128) by
+        rw [varint]; simp only [h', if_false]]
+      refine ⟨by simp only [List.length_cons]; omega, by simp, ?_⟩
+      simp only [List.cons_append, decVarint, hb, hnb, if_false, i3, List.length_cons]
+      congr 2
+      omega
+
+/-! ## the push-back reader -/
+
+/-- the bytes still to be delivered, in order -/
+def stream (r : WBR) : List UInt8 := r.buffer.reverse ++ r.reader
+
+theorem read_spec (r : WBR) (n : Nat) :
+    (r.read n).1 = (stream r).take n ∧ stream (r.read n).2 = (stream r).drop n := by
+  obtain ⟨reader, buffer⟩ := r
+  simp only [WBR.read, stream]
+  rcases Nat.le_total n buffer.length with h | h
+  · have hk : min n buffer.length = n := Nat.min_eq_left h
+    simp only [hk, Nat.sub_self, List.take_zero, List.append_nil, List.drop_zero,
+      List.take_append, List.drop_append, List.length_reverse,
+      show n - buffer.length = 0 by omega, List.take_reverse, List.drop_reverse, and_self]
+  · have hk : min n buffer.length = buffer.length := Nat.min_eq_right h
+    simp only [hk, Nat.sub_self, List.drop_zero, List.take_zero, List.reverse_nil, List.nil_append,
+      List.take_append, List.drop_append, List.length_reverse]
+    have h1 : buffer.reverse.length ≤ n := by simpa using h
+    rw [List.take_of_length_le h1, List.drop_of_length_le h1]
+    simp
+
+theorem write_spec (r : WBR) (bs : List UInt8) : stream (r.write bs) = bs ++ stream r := by
+  simp [WBR.write, stream]
+
+theorem take_drop_split (L : List UInt8) (k : Nat) (hk : k ≤ 10) :
+    (L.take 10).drop k ++ L.drop 10 = L.drop k := by
+  rw [List.drop_take]
+  have : L.drop 10 = (L.drop k).drop (10 - k) := by rw [List.drop_drop]; congr 1; omega
+  rw [this, List.take_append_drop]
+
+theorem encVarint_spec (n : Nat) (rest : List UInt8) (h : n < 2 ^ 64) :
+    (encVarint n).length ≤ 10 ∧ 0 < (encVarint n).length ∧
+    decVarint 10 (encVarint n ++ rest) = some (n, (encVarint n).length) :=
+  varint_spec 9 n rest (Nat.lt_of_lt_of_le h (by decide))
+
+theorem readMessageLength_spec (r : WBR) (m rest : List UInt8) (hm : m.length < 2 ^ 64)
+    (hs : stream r = encVarint m.length ++ (m ++ rest)) :
+    ∃ r', readMessageLength r = some (m.length, r') ∧ stream r' = m ++ rest := by
+  obtain ⟨h1, h2⟩ := read_spec r 10
+  rcases hrd : r.read 10 with ⟨buf, r1⟩
+  rw [hrd] at h1 h2
+  simp only at h1 h2
+  rw [hs] at h1 h2
+  obtain ⟨e1, e2, _⟩ := encVarint_spec m.length [] hm
+  have hbuf : buf = encVarint m.length ++ (m ++ rest).take (10 - (encVarint m.length).length) := by
+    rw [h1, List.take_append, List.take_of_length_le e1]
+  have hne : buf.isEmpty = false := by
+    cases hb : buf with
+    | nil => rw [hb] at hbuf; have := congrArg List.length hbuf; simp at this; omega
+    | cons _ _ => rfl
+  have hdec : decVarint 10 (buf ++ List.replicate (10 - buf.length) 0) =
+      some (m.length, (encVarint m.length).length) := by
+    rw [hbuf, List.append_assoc]
+    exact (encVarint_spec m.length _ hm).2.2
+  have hle : (encVarint m.length).length ≤ buf.length := by
+    rw [hbuf]; simp
+  refine ⟨_, by simp only [readMessageLength, hrd, hne, hdec]; rfl, ?_⟩
+  have key : buf.drop (encVarint m.length).length ++ stream r1 = m ++ rest := by
+    rw [h2, h1, take_drop_split _ _ e1, List.drop_left]
+  split
+  · rw [write_spec]; exact key
+  · have : buf.drop (encVarint m.length).length = [] := List.drop_of_length_le (by omega)
+    rw [this] at key; exact key
+
+theorem readMessage_spec (r : WBR) (m rest : List UInt8) (hm : m.length < 2 ^ 64)
+    (hs : stream r = encVarint m.length ++ (m ++ rest)) :
+    ∃ r', readMessage r = some (m, r') ∧ stream r' = rest := by
+  obtain ⟨r1, h1, h2⟩ := readMessageLength_spec r m rest hm hs
+  obtain ⟨g1, g2⟩ := read_spec r1 m.length
+  rw [h2] at g1 g2
+  rw [List.take_left] at g1
+  rw [List.drop_left] at g2
+  refine ⟨(r1.read m.length).2, ?_, g2⟩
+  rcases hrd : r1.read m.length with ⟨body, r2⟩
+  rw [hrd] at g1
+  simp only at g1
+  subst g1
+  simp only [readMessage, h1, hrd, ne_eq, not_true_eq_false, if_false]
+
+theorem readMessages_spec : ∀ (msgs : List (List UInt8)) (r : WBR) (rest : List UInt8),
+    (∀ m ∈ msgs, m.length < 2 ^ 64) →
+    stream r = (msgs.map (fun m => encVarint m.length ++ m)).flatten ++ rest →
+    ∃ r', readMessages msgs.length r = some (msgs, r') ∧ stream r' = rest := by
+  intro msgs
+  induction msgs with
+  | nil => intro r rest _ hs; exact ⟨r, rfl, by simpa using hs⟩
+  | cons m ms ih =>
+    intro r rest hm hs
+    simp only [List.map_cons, List.flatten_cons, List.append_assoc] at hs
+    obtain ⟨r1, h1, h2⟩ := readMessage_spec r m _ (hm m List.mem_cons_self) hs
+    obtain ⟨r2, k1, k2⟩ := ih r1 rest (fun m' hm' => hm m' (List.mem_cons_of_mem _ hm')) h2
+    exact ⟨r2, by simp only [List.length_cons, readMessages, h1, k1], k2⟩
+
+theorem unframe_frame (msgs : List (List UInt8)) (md : List UInt8) (hn : msgs.length < 2 ^ 64)
+    (hm : ∀ m ∈ msgs, m.length < 2 ^ 64) (hmd : md.length < 2 ^ 64) :
+    unframe (frame msgs md) = some (msgs, md) := by
+  generalize htl : natLE 8 (MAGIC.length + 8 + ((msgs.map (fun m => encVarint m.length ++ m)).flatten).length) = tl
+  have hfr : frame msgs md = MAGIC ++ (natLE 8 msgs.length ++
+      ((msgs.map (fun m => encVarint m.length ++ m)).flatten ++ (encVarint md.length ++ (md ++ tl)))) := by
+    simp only [frame, htl, List.append_assoc]
+  have hlen : ¬ (frame msgs md).length < MAGIC.length + 8 := by
+    rw [hfr]; simp only [List.length_append, Zk.natLE_length]; omega
+  have htake : (frame msgs md).take MAGIC.length = MAGIC := by rw [hfr, List.take_left]
+  have hcnt : leNat (((frame msgs md).drop MAGIC.length).take 8) = msgs.length := by
+    rw [hfr, List.drop_left]
+    have : (natLE 8 msgs.length).length = 8 := Zk.natLE_length _ _
+    rw [List.take_left' this]
+    exact Zk.leNat_natLE 8 _ (by rw [Zk.two64]; exact hn)
+  have hdrop : (frame msgs md).drop (MAGIC.length + 8) =
+      (msgs.map (fun m => encVarint m.length ++ m)).flatten ++ (encVarint md.length ++ (md ++ tl)) := by
+    rw [hfr, ← List.drop_drop, List.drop_left]
+    have : (natLE 8 msgs.length).length = 8 := Zk.natLE_length _ _
+    rw [List.drop_left' this]
+  obtain ⟨r1, h1, h2⟩ := readMessages_spec msgs ⟨(frame msgs md).drop (MAGIC.length + 8), []⟩ _ hm
+    (by simp only [stream, List.reverse_nil, List.nil_append]; exact hdrop)
+  obtain ⟨r2, k1, _⟩ := readMessage_spec r1 md tl hmd h2
+  simp only [unframe, hlen, if_false, htake, ne_eq, not_true_eq_false, hcnt, h1, k1]
+
+theorem leNat_minLE : ∀ (f v : Nat), v < 256 ^ f → leNat (minLE f v) = v := by
+  intro f
+  induction f with
+  | zero => intro v h; simp only [Nat.pow_zero] at h; simp [minLE, leNat]; omega
+  | succ f ih =>
+    intro v h
+    by_cases h' : v < 256
+    · simp only [minLE, h', if_true, leNat, toUInt8_toNat_lt v h']; omega
+    · have hdiv : v / 256 < 256 ^ f := by
+        rw [Nat.div_lt_iff_lt_mul (by omega)]
+        rw [Nat.pow_succ] at h; exact h
+      simp only [minLE, h', if_false, leNat, Zk.toUInt8_toNat_mod, ih _ hdiv]
+      omega
+
+theorem opOfCode_opCode (op : Op) : opOfCode (opCode op) = some op := by
+  cases op <;> rfl
+
+/-! ## a node list given as a list of chunks (the bundled graph is generated that way) -/
+
+def wfChunks (k : Nat) : List (List Node) → Nat → Bool
+  | [], _ => true
+  | c :: r, i => wfAux k c i && wfChunks k r (i + c.length)
+
+def lenChunks : List (List Node) → Nat
+  | [] => 0
+  | c :: r => c.length + lenChunks r
+
+def getChunks? : List (List Node) → Nat → Option Node
+  | [], _ => none
+  | c :: r, i => if i < c.length then c[i]? else getChunks? r (i - c.length)
+
+def isAdd : Option Node → Bool
+  | some (.duo .Add _ _) => true
+  | _ => false
+
+theorem isAdd_spec (o : Option Node) (h : isAdd o = true) : ∃ a b, o = some (.duo .Add a b) := by
+  match o, h with
+  | some (.duo .Add a b), _ => exact ⟨a, b, rfl⟩
+
+theorem wfAux_append (k : Nat) : ∀ (a b : List Node) (i : Nat),
+    wfAux k (a ++ b) i = (wfAux k a i && wfAux k b (i + a.length)) := by
+  intro a
+  induction a with
+  | nil => intro b i; simp [wfAux]
+  | cons n r ih =>
+    intro b i
+    simp only [List.cons_append, wfAux, ih, List.length_cons, Bool.and_assoc]
+    congr 3; omega
+
+theorem wfAux_flatten (k : Nat) : ∀ (cs : List (List Node)) (i : Nat),
+    wfAux k cs.flatten i = wfChunks k cs i := by
+  intro cs
+  induction cs with
+  | nil => intro i; rfl
+  | cons c r ih => intro i; simp only [List.flatten_cons, wfAux_append, ih, wfChunks]
+
+theorem length_flatten_chunks : ∀ (cs : List (List Node)), cs.flatten.length = lenChunks cs := by
+  intro cs
+  induction cs with
+  | nil => rfl
+  | cons c r ih => simp only [List.flatten_cons, List.length_append, ih, lenChunks]
+
+theorem getElem?_flatten_chunks : ∀ (cs : List (List Node)) (i : Nat), cs.flatten[i]? = getChunks? cs i := by
+  intro cs
+  induction cs with
+  | nil => intro i; rfl
+  | cons c r ih =>
+    intro i
+    simp only [List.flatten_cons, getChunks?, List.getElem?_append, ih]
+
+theorem foldl_append_flatten {α : Type} : ∀ (cs : List (List α)) (acc : List α),
+    cs.foldl (fun a c => a ++ c) acc = acc ++ cs.flatten := by
+  intro cs
+  induction cs with
+  | nil => intro acc; simp
+  | cons c r ih => intro acc; simp only [List.foldl_cons, ih, List.flatten_cons, List.append_assoc]
+
 end Zk.Graph
